@@ -118,9 +118,32 @@ class Prop(BaseProp):
         cases.append({"kind": "Gen", "seed": seed, "sends": [None, None, 3, None, 0, 2, None], "path": [0]})
         cases.append({"kind": "Gen", "seed": seed, "sends": [None] * 5, "path": [84 + H, H, H, 0]})
         cases.append({"kind": "Gen", "seed": seed, "sends": [10, 1, None], "path": []})
+        cases.append({"kind": "GenA", "seed": seed, "path": [84 + H, H, H, 0], "first": [None, 3, None], "second": [None, None, None, None]})
+        cases.append({"kind": "GenA", "seed": seed, "path": [0], "first": [None, None], "second": [None, 2]})
         return cases
 
     def run_impl(self, case):
+        if case["kind"] == "GenA":
+            w = self.new_wallet(case["seed"], False)
+            nd = w.master.derive_path(list(case["path"]))
+            g1 = w.address_generator(nd)                                   # default p2wpkh walks some indexes first
+            next(g1)
+            for s_ in case["first"]:
+                g1.send(s_)
+            nd2 = w.by_path(str(nd)) if len(case["path"]) <= 5 else nd     # same path, another node object
+            g2 = w.address_generator(nd2, addr_fnc=w.p2pkh_address)
+            shared = [list(next(g2))]
+            for s_ in case["second"]:
+                shared.append(list(g2.send(s_)))
+            fresh = []
+            idx = 0
+            for s_ in [None] + list(case["second"]):
+                fw = self.new_wallet(case["seed"], False)
+                if fresh:
+                    idx += s_ or 1
+                child = fw.master.derive_path(list(case["path"]) + [idx])
+                fresh.append([str(child), fw.p2pkh_address(child)])
+            return {"shared": shared, "fresh": fresh, "err": False}
         if case["kind"] == "Gen":
             w = self.new_wallet(case["seed"], False)
             nd = w.master.derive_path(list(case["path"]))
@@ -175,6 +198,9 @@ class Prop(BaseProp):
         return {"triples": triples, "before": before, "after": after, "err": False}
 
     def coq_term(self, case, obs):
+        if case["kind"] == "GenA":
+            f = lambda l: "[" + ";".join("(%s, %s)" % (zs(a), zs(str(b))) for a, b in l) + "]"
+            return "(GenA %s %s)" % (f(obs["shared"]), f(obs["fresh"]))
         if case["kind"] == "Gen":
             sends = "[" + ";".join("None" if s is None else "(Some (%d))" % s for s in case["sends"]) + "]"
             return "(Gen %s [%s] %s)" % (sends, ";".join(zs(p) for p in obs["paths"]), zs(obs["prefix"]))
@@ -184,10 +210,10 @@ class Prop(BaseProp):
         return "(Hist [%s] %s %s)" % (tr, zs(h(obs["before"])), zs(h(obs["after"])))
 
     def nontrivial_key(self, case, obs):
-        return json.dumps([case["kind"], obs.get("triples", obs.get("paths"))])[:5000]
+        return json.dumps([case["kind"], obs.get("triples", obs.get("paths", obs.get("shared")))])[:5000]
 
     def sample_repr(self, case, obs):
-        if case["kind"] == "Gen":
+        if case["kind"] in ("Gen", "GenA"):
             return {"case": case, "impl": obs}
         return {"case": {"kind": "Hist", "threads": case["threads"], "n_ops": len(case["ops"]), "first_ops": case["ops"][:4]},
                 "impl": {"n_answers": len(obs["triples"]), "disagreements": [t[0] for t in obs["triples"] if t[1] != t[2]][:5]}}
